@@ -242,6 +242,10 @@ def run(ctx):
     # component order is preserved end to end (formatter, templates, parsers, fold, accessors)
     import maps as _maps
     _maps.rule_O_ORDER(ctx)
+    # naming-law lints over the modules this property lives in (sibling slips: truth<->budget, stamp<->punctuation, left<->right, swapped arguments)
+    import roles as _roles
+    _roles.rule_R_ROLE(ctx, modules=('enum_narsese::term', 'lexical::term', 'api::data_structure::term'))
+    _roles.rule_A_NAMES(ctx, modules=('enum_narsese::term', 'lexical::term', 'api::data_structure::term'))
     ctx.undecided = ["nothing value-dependent remains except set iteration order, which the property treats as a set"]
     ctx.assumptions = ["Vec::insert(i, x) places x at position i", "iterating a Vec preserves order"]
     ctx.trusted = ["rustc HIR", "mirfacts driver", "python rule layer"]
